@@ -7,6 +7,10 @@
    bounded size …; events about the same environment carry the same partition key,
    and every event accepted before shutdown is handed to the broker before
    shutdown completes."
+
+  "Accepted" = WriteEvent has returned.  The hand-over in WriteEventWithTimestamp is a plain
+  blocking channel send, so a call returns only once its message is IN the channel; `Snap` /
+  `snapOk` state that on what the harness can see while the pipeline stands still.
 -/
 import ControlModel.Model.Writer
 
@@ -47,6 +51,40 @@ structure Producer where
   task : Nat
   deriving Repr, DecidableEq
 
+/-- What can be seen of the pipeline at an instant at which nothing moves (the batching loop
+    is held up in front of the FIFO's lock, every producer that is inside WriteEvent sits in
+    the channel send): how many WriteEvent calls have RETURNED per producer, how many messages
+    the hand-over channel holds, whether the batching loop has one in its hand, the FIFO
+    buffer's length, how many events have been handed to the write function so far (written
+    or in flight), and which producers are waiting inside WriteEvent. -/
+structure Snap where
+  acc : List Nat
+  chan : Nat
+  hand : Nat
+  buf : Nat
+  written : Nat
+  blocked : List Nat
+  deriving Repr, DecidableEq
+
+/-- "WriteEvent returned ⇒ the event is in channel ∪ hand ∪ buffer ∪ in flight ∪ written", as
+    counts: not more calls have returned than the pipeline holds or has passed on; the channel
+    holds at most its capacity and the batching loop at most one message; and a producer waits
+    inside WriteEvent only for room in the channel (never for the buffer, the writing loop or
+    the broker): somebody waiting ⇒ the channel is full. -/
+def snapOk (cap : Nat) (sn : Snap) : Bool :=
+  decide (sn.acc.sum ≤ sn.chan + sn.hand + sn.buf + sn.written) && decide (sn.chan ≤ cap) &&
+  decide (sn.hand ≤ 1) && (sn.blocked.isEmpty || sn.chan == cap)
+
+/-- The model's snapshot: `np` producers; `pending` = the producers that have a WriteEvent call
+    outstanding (more to publish); such a producer waits iff its `publish` step is not enabled. -/
+def snapOf (c : Cfg) (s : State) (np : Nat) (pending : List Nat) : Snap :=
+  { acc := (List.range np).map fun p => countOf p s.pubs
+    chan := s.chan.length
+    hand := s.hand.toList.length
+    buf := s.buf.length
+    written := (delivered s).length
+    blocked := pending.filter fun p => !enabled c s (.publish p) }
+
 /-- One observed run. A written event is (producer, seq, key code). -/
 structure Obs where
   accepted : List Nat
@@ -55,6 +93,7 @@ structure Obs where
   leftChan : Nat
   leftBuf : Nat
   inflight : Nat     -- write calls still in progress when Close returned
+  snaps : List Snap := []   -- snapshots taken while the batching loop was held up ("channel full" scenarios)
   deriving Repr, DecidableEq
 
 def Obs.delivered (o : Obs) : List Ev := (o.batches.flatten).map fun e => (e.1, e.2.1)
@@ -88,8 +127,12 @@ def flushOk (o : Obs) : Bool :=
 /-- Close came back. -/
 def closeOk (o : Obs) : Bool := o.status == .returned
 
-/-- Full-strength Spec for one observed run (a run always ends with Close). -/
-def Spec (bm : Nat) (prods : List Producer) (o : Obs) : Bool :=
-  safeOk bm prods o && flushOk o && closeOk o
+/-- Hand-over: at every snapshot every accepted event is in the pipeline (see `snapOk`). -/
+def handoverOk (cap : Nat) (o : Obs) : Bool := o.snaps.all (snapOk cap)
+
+/-- Full-strength Spec for one observed run (a run always ends with Close). `cap` is the
+    capacity of the hand-over channel of the writer that was run. -/
+def Spec (bm cap : Nat) (prods : List Producer) (o : Obs) : Bool :=
+  safeOk bm prods o && flushOk o && closeOk o && handoverOk cap o
 
 end Writer
